@@ -903,3 +903,78 @@ def s_drain(vc):
         i += 1
     vc.ensure("one_outcome_at_least", Or(gg["rs"], gg["err"]))
     vc.ensure("not_live_at_the_end", vc.eq(flow.live, False))
+
+
+# ---------------------------------------------------------------------------------------------
+# a response set by an addon in the requestheaders hook (e.g. proxyauth's 407) suppresses forwarding of the request
+
+@scenario("addon_response.request_never_forwarded", functions=[HS + ".state_consume_request_body", HS + ".check_body_size", HS + ".start_request_stream",
+                                                             HS + ".make_server_connection", HS + ".state_wait_for_request_headers", HS + "._handle_event"])
+def s_addon_response_never_forwarded(vc):
+    """Every handler reachable after the requestheaders hook, entered with flow.response already set by an addon: nothing of the request
+    reaches an upstream (no GetHttpConnection / OpenConnection / SendHttp(_, server)).  In particular the *late* switch to streaming in
+    check_body_size (body without Content-Length growing past stream_large_bodies while being buffered) and start_request_stream itself.
+    The unchanged tree refuses the combination 'response set + request streaming' with NotImplementedError (nothing forwarded); any other
+    exception, or any forwarding, violates the contract."""
+    site = vc.case("site", ["consume.data", "consume.trailers", "start_request_stream", "requestheaders.response_and_stream"])
+    from props.httpstream import layer_handle_event_unpaused
+    layer_handle_event_unpaused(vc)
+    no_validation(vc, False)
+    S = vc.sym_int("S", lo=0)
+    L = vc.sym_int("L", lo=0)
+    E = vc.sym_int("E")
+    thresh = vc.sym_str("thresh_opt")
+    vc.assume(len_(thresh) > 0)
+    limit_set = vc.case("limit_set", [False, True])
+    limit = vc.sym_str("limit_opt") if limit_set else None
+    if limit_set:
+        vc.assume(len_(limit) > 0)
+
+    def parse_size(v, s):
+        s = v.resolve(s)
+        return v.lift(None) if isnone(s) else v.lift(S if s is thresh else L)
+
+    vc.summary("mitmproxy.utils.human:parse_size", parse_size)
+    ebs = lambda v, request, response=None: v.lift(E)
+    vc.summary("mitmproxy.net.http.http1.read:expected_http_body_size", ebs)
+    vc.summary("mitmproxy.proxy.layers.http:expected_http_body_size", ebs)
+    server2 = _server2(vc)
+    addon_resp = mk_response(vc, status_code=407, content=b"auth required")
+    seen = []
+
+    def on_yield(cmd):
+        n = cmd.cls.__name__ if isinstance(cmd, SObj) else type(cmd).__name__
+        seen.append(n)
+        if n == "GetHttpConnection":
+            return (server2, None)
+        if n == "HttpRequestHeadersHook":
+            # two addons: one answers the request itself (proxyauth), one enables streaming
+            cmd.flow.response = addon_resp
+            cmd.flow.request.stream = True
+        return None
+
+    if site == "requestheaders.response_and_stream":
+        req = mk_request(vc, authority=b"example.com:80")
+        st, flow, client, server = mk_stream(vc, "state_wait_for_request_headers", "state_uninitialized", request=req, live=False, server_open=False,
+                                             stream_large_bodies=thresh, body_size_limit=limit)
+        del fields_of(vc, st)["flow"]
+        out = vc.call(HS + ".state_wait_for_request_headers", st, ev(vc, "RequestHeaders", request=req, end_stream=False, replay_flow=flow), on_yield=on_yield)
+    else:
+        old = vc.sym_bytes("buffered")
+        vc.assume(len_(old) <= S)          # still buffering: the threshold has not been crossed yet
+        if limit_set:
+            vc.assume(len_(old) <= L)
+        st, flow, client, server = mk_stream(vc, "state_consume_request_body", "state_wait_for_response_headers", response=addon_resp, reqbuf=old,
+                                             server_open=False, stream_large_bodies=thresh, body_size_limit=limit)
+        if site == "consume.data":
+            out = vc.call(HS + ".state_consume_request_body", st, ev(vc, "RequestData", data=vc.sym_bytes("data")), on_yield=on_yield)
+        elif site == "consume.trailers":
+            out = vc.call(HS + ".state_consume_request_body", st, ev(vc, "RequestTrailers", trailers=mk_headers(vc, [(b"x", b"y")])), on_yield=on_yield)
+        else:
+            out = vc.call(HS + ".start_request_stream", st, on_yield=on_yield)
+    tr = out.trace
+    forwarded = [c for c in tr if is_cmd(c, "GetHttpConnection") or is_cmd(c, "OpenConnection") or is_send(c, None, server) or is_send(c, None, server2)]
+    vc.ensure("nothing_forwarded_upstream", forwarded == [])
+    vc.ensure("no_upstream_connection_recorded", st.context.server is server and flow.server_conn is server)
+    vc.ensure("raises_at_most_not_implemented", out.ok or issubclass(out.raised_type(), NotImplementedError))
+    vc.ensure("addon_response_kept", flow.response is addon_resp)
